@@ -37,7 +37,7 @@ def load_variants():
 
 
 def make_copy(slot):
-    d = os.path.join(tempfile.gettempdir(), "ta-selfval-%d" % slot)
+    d = os.path.join(tempfile.gettempdir(), "ta-selfval-%d-%d" % (os.getpid(), slot))
     shutil.rmtree(d, ignore_errors=True)
     os.makedirs(d)
     for item in ("src", "Cargo.toml", "Cargo.lock"):
@@ -73,7 +73,7 @@ def run_variant(v, slot):
             return res
         for p in v["props"]:
             env = dict(os.environ, VERIF_SELFVAL="1")
-            r = subprocess.run([sys.executable, os.path.join(HERE, "main.py"), p, "--repo", d, "--tag", "sv%d" % slot, "--no-evidence"],
+            r = subprocess.run([sys.executable, os.path.join(HERE, "main.py"), p, "--repo", d, "--tag", "sv%d-%d" % (os.getpid(), slot), "--no-evidence"],
                                stdout=subprocess.PIPE, stderr=subprocess.STDOUT, text=True, env=env)
             keys = [ln.strip().split("  rule=")[0] for ln in r.stdout.splitlines() if ln.startswith("  " + p + ":")]
             err = [ln for ln in r.stdout.splitlines() if "CHECK-ERROR" in ln or "Traceback" in ln or "ExtractError" in ln]
@@ -81,6 +81,19 @@ def run_variant(v, slot):
     finally:
         shutil.rmtree(d, ignore_errors=True)
     return res
+
+
+def drop_slots():
+    """remove the per-process scratch target directories of this run"""
+    try:
+        import extract
+        for e in os.listdir(extract.CACHE):
+            m = __import__("re").match(r"(?:target-witness-|target-|extract-|witness-)(sv%d-\d+)" % os.getpid(), e)
+            if m:
+                extract.drop_scratch(m.group(1))
+                shutil.rmtree(os.path.join(extract.CACHE, "witness-" + m.group(1)), ignore_errors=True)
+    except Exception:
+        pass
 
 
 def main():
@@ -118,6 +131,7 @@ def main():
         t.start()
     for t in ths:
         t.join()
+    drop_slots()
     bad = 0
     for r in out:
         if r.get("skipped"):
